@@ -40,11 +40,27 @@ for name in sorted(os.listdir(os.path.join(V, "seeded"))):
     us = [u.name for u in load_units().values() if pid in u.props and (tier == "thorough" or u.tier == "quick") and
           (u.runner or u.src in touched or any(x in touched for x in u.extra_src))]
     # narrower: if some unit is the contract of a function named in a hunk header, run only those
-    funcs = set(re.findall(r"^@@[^@]*@@.*?\b([A-Za-z_][A-Za-z0-9_]*)\s*\(", open(os.path.join(d, "patch.diff")).read(), re.M))
+    ptxt = open(os.path.join(d, "patch.diff")).read()
+    funcs = set(re.findall(r"^@@[^@]*@@.*?\b([A-Za-z_][A-Za-z0-9_]*)\s*\(", ptxt, re.M))
+    # a function header inside the hunk (context or changed line) names the function more reliably
+    funcs |= set(re.findall(r"^[ +-](?:static\s+|STIN\s+)?[A-Za-z_][A-Za-z0-9_ \*]*?\b([A-Za-z_][A-Za-z0-9_]*)\s*\([^;]*\)\s*\{\s*$", ptxt, re.M))
     allu = load_units()
     exact = [n for n in us if allu[n].enforce in funcs or allu[n].runner]
     if any(allu[n].enforce in funcs for n in exact):
         us = exact
+    elif os.environ.get("SEED_NO_FALLBACK") and not any(allu[n].runner for n in us):
+        # no unit has a touched function under contract: the change sits in code that is only
+        # an ASSUMED callee contract for this property's units, so it cannot be noticed
+        res[name] = {"property": pid, "tier": tier, "result": "missed", "lines": ["no unit has %s under contract" % ",".join(sorted(funcs))]}
+        print(name, "missed (function not under contract: %s)" % ",".join(sorted(funcs)))
+        shutil.rmtree(scratch, ignore_errors=True)
+        json.dump(res, open(mp, "w"), indent=1)
+        mj = os.path.join(d, "meta.json")
+        if os.path.exists(mj):
+            m = json.load(open(mj))
+            m["detected_by"] = {"check": "./check %s %s" % (pid, tier), "result": "missed", "obligations": res[name]["lines"]}
+            json.dump(m, open(mj, "w"), indent=1)
+        continue
     if not us:
         res[name] = {"property": pid, "tier": tier, "result": "missed", "lines": ["no unit of %s verifies %s" % (pid, ",".join(sorted(touched)))]}
         print(name, "missed (no unit on the touched files)")
